@@ -119,6 +119,9 @@ type FakeTCP struct {
 	Prefix  int // length announced in the prefix; -1 = len(Body)
 	HangFor time.Duration
 	Hits    int
+	// every endpoint also owns a UDP port (a sink): the port identifies the server a datagram is sent to
+	UDP     *net.UDPConn
+	UDPPort uint16
 }
 
 func NewFakeTCP() (*FakeTCP, error) {
@@ -127,6 +130,17 @@ func NewFakeTCP() (*FakeTCP, error) {
 		return nil, err
 	}
 	f := &FakeTCP{L: l, Port: uint16(l.Addr().(*net.TCPAddr).Port), Mode: "reply", Prefix: -1}
+	if u, err := net.ListenUDP("udp", &net.UDPAddr{IP: net.ParseIP("127.0.0.1")}); err == nil {
+		f.UDP, f.UDPPort = u, uint16(u.LocalAddr().(*net.UDPAddr).Port)
+		go func() {
+			buf := make([]byte, 2048)
+			for {
+				if _, _, err := u.ReadFromUDP(buf); err != nil {
+					return
+				}
+			}
+		}()
+	}
 	go func() {
 		for {
 			conn, err := l.Accept()
@@ -178,7 +192,12 @@ func (f *FakeTCP) serve(conn net.Conn) {
 	conn.Write(body)
 }
 
-func (f *FakeTCP) Close() { f.L.Close() }
+func (f *FakeTCP) Close() {
+	f.L.Close()
+	if f.UDP != nil {
+		f.UDP.Close()
+	}
+}
 
 func (f *FakeTCP) AsServer() client.GCAServer {
 	return client.GCAServer{Location: "127.0.0.1", TcpPort: f.Port, UdpPort: 9, HttpPort: 9}
